@@ -387,3 +387,29 @@ class Hub:
         """every value origin is the result of a current-hash read (projections / Option combinators in between are fine)"""
         calls = [o for o in os_ if o.kind not in ('comb', 'agg')]
         return bool(calls) and all(o.kind == 'call' and o.key in self.current_reads() for o in calls)
+
+
+
+def put_arg_slots(F):
+    """argument positions (0-based, in the call's `args`) of HubClient::put by what the parameters ARE, not by their order:
+    {'rel': &str, 'expected': Option<[u8; 32]>, 'local': &Path, 'hash': [u8; 32]}; None when a role is missing or ambiguous"""
+    p = F.body('hub::HubClient::put')
+    if p is None:
+        return None
+    roles = {}
+    for i in range(1, p.argc + 1):
+        ty = p.local_ty(i).replace(' ', '')
+        r = None
+        if ty.endswith('Option<[u8;32]>'):
+            r = 'expected'
+        elif ty in ('[u8;32]', '&[u8;32]'):
+            r = 'hash'
+        elif ty in ('&str', 'std::string::String', '&std::string::String'):
+            r = 'rel'
+        elif 'Path' in ty:
+            r = 'local'
+        if r:
+            if r in roles:
+                return None
+            roles[r] = i - 1
+    return roles if set(roles) == {'rel', 'expected', 'local', 'hash'} else None
